@@ -14,5 +14,6 @@ func main() {
 		"C05": scenarioC05,
 		"C06": scenarioC06,
 		"C09": scenarioC09,
+		"C02": scenarioC02Counter,
 	})
 }
